@@ -14,6 +14,7 @@ import (
 	"strconv"
 	"strings"
 
+	"github.com/Dash-Industry-Forum/livesim2/cmd/livesim2/app"
 	"github.com/Dash-Industry-Forum/livesim2/pkg/patch"
 	"github.com/beevik/etree"
 )
@@ -560,13 +561,124 @@ func c11Flow(c *Ctx) {
 	getServer()
 	r := c.Rng
 	s := getServer()
+	one := func(a *app.VerifAsset, mode string, ttl int, extra string, t1, t2 int64) {
+		mpdPath := fmt.Sprintf("/livesim2/patch_%d/%s%s/%s/%s", ttl, extra, mode, a.AssetPath, a.MPDs[0])
+		m1 := doLive("GET", fmt.Sprintf("%s?nowMS=%d", mpdPath, t1))
+		m2 := doLive("GET", fmt.Sprintf("%s?nowMS=%d", mpdPath, t2))
+		if m1.code != 200 || m2.code != 200 {
+			return
+		}
+		x1, err := parseMPD(m1.body)
+		if err != nil || len(x1.PatchLoc) == 0 {
+			c.Violate("flow-no-patchlocation", "MPD with patch_ttl has no PatchLocation", []string{"# GET " + mpdPath}, nil)
+			return
+		}
+		x2, _ := parseMPD(m2.body)
+		loc := strings.TrimSpace(x1.PatchLoc[0].Value)
+		// the location names the MPD it is advertised in
+		if i := strings.Index(loc, "publishTime="); i >= 0 {
+			v := loc[i+len("publishTime="):]
+			if j := strings.IndexByte(v, '&'); j >= 0 {
+				v = v[:j]
+			}
+			if uv, err := neturl.QueryUnescape(v); err != nil || uv != x1.PublishTime {
+				c.Violate("flow-location-pt", fmt.Sprintf("the PatchLocation carries publishTime=%s, the MPD it is in has publishTime %s", v, x1.PublishTime), []string{fmt.Sprintf("# GET %s?nowMS=%d", mpdPath, t1)}, nil)
+				return
+			}
+		} else {
+			c.Violate("flow-location-pt", "the PatchLocation carries no publishTime", []string{fmt.Sprintf("# GET %s?nowMS=%d", mpdPath, t1)}, nil)
+			return
+		}
+		url := loc + fmt.Sprintf("&nowMS=%d", t2)
+		req := newReq("GET", url)
+		rec := newRec()
+		func() {
+			defer func() {
+				if rr := recover(); rr != nil {
+					rec.Code = -1
+				}
+			}()
+			s.Router.ServeHTTP(rec, req)
+		}()
+		c.Count("flow-requests")
+		rp := []string{"# GET " + mpdPath + fmt.Sprintf("?nowMS=%d", t1), "# GET " + url}
+		pt1, _ := dateToMS(x1.PublishTime)
+		pt2, _ := dateToMS(x2.PublishTime)
+		switch {
+		case pt1 == pt2:
+			if canonXMLStr(string(m1.body)) != canonXMLStr(string(m2.body)) {
+				c.Violate("flow-same-pt-other-mpd", fmt.Sprintf("the MPDs at %d and %d differ but carry the same publishTime %s: the client is told that nothing changed", t1, t2, x1.PublishTime), rp, nil)
+				return
+			}
+			if rec.Code != 425 {
+				c.Violate("flow-same-pt", fmt.Sprintf("nothing changed (same publishTime) but the patch request answered %d", rec.Code), rp, nil)
+			}
+			return
+		case pt2 > pt1+int64(ttl+10)*1000:
+			if rec.Code != 410 {
+				c.Violate("flow-late", fmt.Sprintf("beyond the time-to-live the patch request answered %d", rec.Code), rp, nil)
+			}
+			return
+		}
+		if rec.Code != 200 {
+			c.Violate("flow-status", fmt.Sprintf("patch request within the TTL answered %d", rec.Code), rp, nil)
+			return
+		}
+		pd := etree.NewDocument()
+		if err := pd.ReadFromBytes(rec.Body.Bytes()); err != nil {
+			c.Violate("flow-unparsable", "patch document does not parse", rp, nil)
+			return
+		}
+		if pd.Root().SelectAttrValue("originalPublishTime", "") != x1.PublishTime {
+			c.Violate("flow-original-pt", "originalPublishTime is not the old MPD's publishTime", rp, nil)
+			return
+		}
+		applied, err := applyPatch(string(m1.body), pd)
+		if err != nil {
+			c.Violate("flow-apply", "served patch cannot be applied to the MPD it was advertised in: "+err.Error(), rp, nil)
+			return
+		}
+		if ca, cb := canonXML(applied), canonXMLStr(string(m2.body)); ca != cb {
+			i := 0
+			for i < len(ca) && i < len(cb) && ca[i] == cb[i] {
+				i++
+			}
+			lo := i - 160
+			if lo < 0 {
+				lo = 0
+			}
+			cut := func(x string) string {
+				hi := i + 160
+				if hi > len(x) {
+					hi = len(x)
+				}
+				if lo > len(x) {
+					return ""
+				}
+				return x[lo:hi]
+			}
+			c.Violate("flow-result", "MPD(t1) + patch differs from MPD(t2)", rp, map[string]any{"patched": cut(ca), "served": cut(cb), "patch": string(rec.Body.Bytes())})
+		}
+	}
+	// systematic: the oldest Period leaves the time-shift window between t1 and t2 (tsbd not a multiple of the period)
+	if a := findVAsset("testpic_2s"); a != nil {
+		for _, mode := range []string{"segtimeline_1", "segtimelinenr_1"} {
+			for _, ex := range [][2]string{{"periods_60/tsbd_25/", "25"}, {"periods_60/tsbd_30/", "30"}, {"periods_60/tsbd_25/ato_0.5/", "25"}} {
+				tsbd, _ := strconv.Atoi(ex[1])
+				W := int64(1790000000000)/60000*60000 + int64(tsbd)*1000
+				for _, d := range [][2]int64{{-300, 600}, {-1, 1}, {-1500, 2000}, {500, 1500}} {
+					one(a, mode, 60, ex[0], W+d[0], W+d[0]+d[1])
+				}
+			}
+		}
+	}
 	for ai := range vAssets {
 		a := &vAssets[ai]
 		for it := 0; it < c.N(4, 30); it++ {
 			mode := r.PickS("segtimeline_1", "segtimelinenr_1")
 			ttl := r.Pick(60, 30, 600)
 			extra := r.PickS("", "", "periods_60/", "tsbd_30/", "periods_120/tsbd_10/", "ato_1.5/chunkdur_0.25/", "periods_60/ato_1/", "periods_120/ato_0.5/", "periods_60/ato_1.5/chunkdur_0.5/",
-				"tsbd_25/start_1700000000/", "tsbd_7/start_61/", "tsbd_25/")
+				"tsbd_25/start_1700000000/", "tsbd_7/start_61/", "tsbd_25/", "periods_60/tsbd_25/", "periods_60/tsbd_30/", "periods_120/tsbd_10/")
 			base := int64(1790000000000) + int64(r.Intn(100000))
 			if strings.Contains(extra, "start_61/") && r.Intn(2) == 0 {
 				base = 61000 + int64(r.Intn(200000)) // close to the start of the stream
@@ -576,100 +688,13 @@ func c11Flow(c *Ctx) {
 				// right after a period boundary: the newest Period is listed before its first segment is announced
 				t1 = base/120000*120000 + int64(r.Pick(0, 1, 300, 500, 999, 1000, 1500, a.SegmentDurMS-1))
 			}
+			if i := strings.Index(extra, "tsbd_"); strings.HasPrefix(extra, "periods_") && i > 0 && r.Intn(2) == 0 {
+				// right before the oldest Period leaves the time-shift window (its successor's start + tsbd)
+				tsbd, _ := strconv.Atoi(strings.TrimSuffix(extra[i+5:], "/"))
+				t1 = base/120000*120000 + int64(tsbd)*1000 - int64(r.Pick(1, 300, 999, 1500))
+			}
 			t2 := t1 + int64(r.Pick(1, a.SegmentDurMS, 3*a.SegmentDurMS, a.LoopDurMS+7, 25000, (ttl+5)*1000, (ttl+20)*1000))
-			mpdPath := fmt.Sprintf("/livesim2/patch_%d/%s%s/%s/%s", ttl, extra, mode, a.AssetPath, a.MPDs[0])
-			m1 := doLive("GET", fmt.Sprintf("%s?nowMS=%d", mpdPath, t1))
-			m2 := doLive("GET", fmt.Sprintf("%s?nowMS=%d", mpdPath, t2))
-			if m1.code != 200 || m2.code != 200 {
-				continue
-			}
-			x1, err := parseMPD(m1.body)
-			if err != nil || len(x1.PatchLoc) == 0 {
-				c.Violate("flow-no-patchlocation", "MPD with patch_ttl has no PatchLocation", []string{"# GET " + mpdPath}, nil)
-				continue
-			}
-			x2, _ := parseMPD(m2.body)
-			loc := strings.TrimSpace(x1.PatchLoc[0].Value)
-			// the location names the MPD it is advertised in
-			if i := strings.Index(loc, "publishTime="); i >= 0 {
-				v := loc[i+len("publishTime="):]
-				if j := strings.IndexByte(v, '&'); j >= 0 {
-					v = v[:j]
-				}
-				if uv, err := neturl.QueryUnescape(v); err != nil || uv != x1.PublishTime {
-					c.Violate("flow-location-pt", fmt.Sprintf("the PatchLocation carries publishTime=%s, the MPD it is in has publishTime %s", v, x1.PublishTime), []string{fmt.Sprintf("# GET %s?nowMS=%d", mpdPath, t1)}, nil)
-					continue
-				}
-			} else {
-				c.Violate("flow-location-pt", "the PatchLocation carries no publishTime", []string{fmt.Sprintf("# GET %s?nowMS=%d", mpdPath, t1)}, nil)
-				continue
-			}
-			url := loc + fmt.Sprintf("&nowMS=%d", t2)
-			req := newReq("GET", url)
-			rec := newRec()
-			func() {
-				defer func() {
-					if rr := recover(); rr != nil {
-						rec.Code = -1
-					}
-				}()
-				s.Router.ServeHTTP(rec, req)
-			}()
-			c.Count("flow-requests")
-			rp := []string{"# GET " + mpdPath + fmt.Sprintf("?nowMS=%d", t1), "# GET " + url}
-			pt1, _ := dateToMS(x1.PublishTime)
-			pt2, _ := dateToMS(x2.PublishTime)
-			switch {
-			case pt1 == pt2:
-				if rec.Code != 425 {
-					c.Violate("flow-same-pt", fmt.Sprintf("nothing changed (same publishTime) but the patch request answered %d", rec.Code), rp, nil)
-				}
-				continue
-			case pt2 > pt1+int64(ttl+10)*1000:
-				if rec.Code != 410 {
-					c.Violate("flow-late", fmt.Sprintf("beyond the time-to-live the patch request answered %d", rec.Code), rp, nil)
-				}
-				continue
-			}
-			if rec.Code != 200 {
-				c.Violate("flow-status", fmt.Sprintf("patch request within the TTL answered %d", rec.Code), rp, nil)
-				continue
-			}
-			pd := etree.NewDocument()
-			if err := pd.ReadFromBytes(rec.Body.Bytes()); err != nil {
-				c.Violate("flow-unparsable", "patch document does not parse", rp, nil)
-				continue
-			}
-			if pd.Root().SelectAttrValue("originalPublishTime", "") != x1.PublishTime {
-				c.Violate("flow-original-pt", "originalPublishTime is not the old MPD's publishTime", rp, nil)
-				continue
-			}
-			applied, err := applyPatch(string(m1.body), pd)
-			if err != nil {
-				c.Violate("flow-apply", "served patch cannot be applied to the MPD it was advertised in: "+err.Error(), rp, nil)
-				continue
-			}
-			if ca, cb := canonXML(applied), canonXMLStr(string(m2.body)); ca != cb {
-				i := 0
-				for i < len(ca) && i < len(cb) && ca[i] == cb[i] {
-					i++
-				}
-				lo := i - 160
-				if lo < 0 {
-					lo = 0
-				}
-				cut := func(x string) string {
-					hi := i + 160
-					if hi > len(x) {
-						hi = len(x)
-					}
-					if lo > len(x) {
-						return ""
-					}
-					return x[lo:hi]
-				}
-				c.Violate("flow-result", "MPD(t1) + patch differs from MPD(t2)", rp, map[string]any{"patched": cut(ca), "served": cut(cb), "patch": string(rec.Body.Bytes())})
-			}
+			one(a, mode, ttl, extra, t1, t2)
 		}
 	}
 }
